@@ -180,6 +180,19 @@ PROPS = {
         assumptions=[],
         open=["ground-semantics theorems (Sat γ (rel args) ↔ List specification) for the recursive relations are not proved yet; the relations' elaborated bodies are part of the model and are diffed against the implementation; the oracle is Vec-based"],
     ),
+    "C20": dict(
+        title="compound terms (unification, disequality, reification, FD labelling)",
+        props_module="PvModel.Props.C20",
+        rule="==/!= programs over a Rust tuple, a #[compound] tuple struct and a #[compound] named struct, nested in each other and in lists, each "
+             "equation offering the same shape with holes / another compound type / the list of the same fields / literals; FD programs whose "
+             "query term is a compound, nested compound or list-in-compound of FD variables (hidden FD variables included); oracle: brute-force "
+             "ground solutions over a universe containing a compound (both inclusions), independent structural Robinson solver for terms/sharing, "
+             "closedness + relevant constraints, brute force for labelling (every solution exactly once); non-trivial as in C02/C17; distinct = "
+             "distinct case lines",
+        trusted=SEARCH_TRUST + ["Option values are compounds (Some) / the empty list (None) in the implementation; the harness exercises tuples and two #[compound] structs"],
+        assumptions=[],
+        open=["the tagged-list twin simulation of DESIGN.md is not proved and not used: a list with a variable head CAN unify with an encoded compound, so the twin is not a sound oracle; the structural reference solver replaces it"],
+    ),
     "C01": dict(
         title="unification (State::unify vs unifyF)",
         props_module="PvModel.Props.C01",
